@@ -118,7 +118,8 @@ def lik_case(ctx, rng, reqs, meta):
             kw = {}
             m2, S2, y2 = mean, S, y
             if kind == 'standard-whiten':
-                W = rs.randn(d, d) + 2 * np.eye(d)
+                Q, _ = np.linalg.qr(rs.randn(d, d))
+                W = Q @ np.diag(rs.uniform(0.5, 2.0, d))       # well conditioned (cond <= 4): the two mathematically equal paths agree to ~1e-12
                 kw['whitening'] = W
                 m2, S2, y2 = W @ mean, W @ S @ W.T, W @ y
             if kind == 'standard-warton':
@@ -148,7 +149,7 @@ def lik_case(ctx, rng, reqs, meta):
                 exp, logdet, q = mvn_logpdf(y, mean, S + np.diag((std * gamma) ** 2))
             reqs.append(dict(op='C20.adj', mean=bits(mean[0]), std=bits(std[0]), gamma=bits(gamma[0]), var=bits(S[0, 0])))
             meta.append(('adj', case, (mean[0] + std[0] * gamma[0], S[0, 0] + (std[0] * gamma[0]) ** 2)))
-    same = (exp == got) or (math.isfinite(exp) and math.isfinite(got) and math.isclose(got, exp, rel_tol=1e-8, abs_tol=1e-8))
+    same = (exp == got) or (math.isfinite(exp) and math.isfinite(got) and math.isclose(got, exp, rel_tol=1e-7, abs_tol=1e-8))
     if not same:
         ctx.fail_input(case, 'the %s synthetic log-likelihood is %r, the stated formula gives %r' % (kind, got, exp), exp, got)
 
